@@ -837,6 +837,10 @@ class ParallelProcess(Process):
         # Only end once.
         if self._ended:
             return
+        if self._pending_command:
+            # Discard the result of a command that is still in flight,
+            # for example an update that will never be applied.
+            self.get_command_result()
         self.send_command('end')
         if self.profile:
             stats = pstats.Stats()
